@@ -1,6 +1,8 @@
 import Tau.Optimiser
 import Tau.Proofs.Solver
 import Tau.Proofs.Rewrite
+import Tau.Proofs.Pratt
+import Tau.Rule
 /-
   C01 — Optimisation never changes a verdict.
 
@@ -13,51 +15,55 @@ import Tau.Proofs.Rewrite
 namespace Tau.C01
 open Tau
 
-/-- Shape of a parsed condition: what the Pratt parser can build (no nested / search / group). -/
-inductive CondExpr : Expr → Prop where
-  | ident (i) : CondExpr (.ident i)
-  | matchIdent (k i) : CondExpr (.match k (.ident i))
-  | negate {e} : CondExpr e → CondExpr (.negate e)
-  | binAnd {l r} : CondExpr l → CondExpr r → CondExpr (.bin l .and r)
-  | binOr {l r} : CondExpr l → CondExpr r → CondExpr (.bin l .or r)
-  | cmp (l op r) : op ≠ .and → op ≠ .or → l.isSolvable = false → r.isSolvable = false →
-      CondExpr (.bin l op r)
-  | lit (e) : e.isSolvable = false → CondExpr e
-
 theorem coalesce_leaf (ids : Ids) (e : Expr) (h : e.isSolvable = false) : coalesce ids e = e := by
   cases e <;> simp [Expr.isSolvable] at h <;> simp [coalesce]
 
 /-- **coalesce is exact**: evaluating the coalesced tree with no identifier environment gives the
-    three-valued result of the original condition under the environment, for every document. -/
-theorem coalesce_sound (E : RegexEngine) (ids : Ids) (d : Doc) (e : Expr) (h : CondExpr e)
-    (hdef : ∀ i, (lookupId ids i).isSome) :
+    three-valued result of the original condition under the environment, for every document and
+    every tree of the shape the condition parser builds (`PShape`, see `parse_shape`). -/
+theorem coalesce_sound (E : RegexEngine) (ids : Ids) (d : Doc) (e : Expr) (h : PShape e) :
     solveClosed E d (coalesce ids e) = solveTop E ids d e := by
   induction h with
   | ident i =>
-    have := hdef i
     cases hl : lookupId ids i with
-    | none => simp [hl] at this
+    | none => simp [coalesce, hl, solveClosed, solveTop, solveG, topK, closedK]
     | some b => simp [coalesce, hl, solveTop, solveG, topK]
   | matchIdent k i =>
-    have := hdef i
     cases hl : lookupId ids i with
-    | none => simp [hl] at this
+    | none => cases k <;> simp [coalesce, hl, solveClosed, solveTop, solveG, topK, closedK]
     | some b => cases k <;> simp [coalesce, hl, solveTop, solveG, topK]
-  | negate _ ih =>
+  | litFloat b => simp [coalesce, solveClosed, solveTop, solveG]
+  | litInt i => simp [coalesce, solveClosed, solveTop, solveG]
+  | litCast f m => simp [coalesce, solveClosed, solveTop, solveG]
+  | negate _ _ ih =>
     simp only [coalesce, solveClosed, solveTop, solveG] at *
     rw [ih]
-  | binAnd _ _ ihl ihr =>
-    simp only [coalesce, solveClosed, solveTop, solveG] at *
-    rw [ihl, ihr]
-  | binOr _ _ ihl ihr =>
-    simp only [coalesce, solveClosed, solveTop, solveG] at *
-    rw [ihl, ihr]
+  | binBool op hop _ _ _ _ ihl ihr =>
+    rcases hop with rfl | rfl <;>
+    · simp only [coalesce, solveClosed, solveTop, solveG] at *
+      rw [ihl, ihr]
   | cmp l op r h1 h2 hl hr =>
     rw [coalesce, coalesce_leaf ids l hl, coalesce_leaf ids r hr]
     cases op <;> simp_all [solveClosed, solveTop, solveG]
-  | lit e he =>
-    rw [coalesce_leaf ids e he]
-    cases e <;> simp [Expr.isSolvable] at he <;> simp [solveClosed, solveTop, solveG]
+
+/-- For every token list the parser accepts: coalescing the parsed condition is exact. -/
+theorem coalesce_sound_parsed (E : RegexEngine) (ids : Ids) (d : Doc) (ts : List Token) (e : Expr)
+    (h : parse ts = .ok e) : solveClosed E d (coalesce ids e) = solveTop E ids d e :=
+  coalesce_sound E ids d e (parse_shape ts e h)
+
+/-- Rule level: optimising with the coalesce switch alone never changes the three-valued result,
+    hence never the verdict, of a rule whose condition came out of the parser. -/
+theorem optimise_coalesce_only (E : RegexEngine) (r : Rule) (d : Doc) (h : PShape r.det.expr)
+    (hopt : r.optimised = false) :
+    (r.optimise E ⟨true, false, false, false⟩).solve E d = r.solve E d := by
+  unfold Rule.optimise Rule.solve
+  simp only [hopt, Bool.false_eq_true, if_false, optimiseTree, if_true]
+  have := coalesce_sound E r.det.ids d r.det.expr h
+  simp only [solveClosed, solveTop] at this ⊢
+  -- with no identifiers left the top-level continuation is the closed one
+  have hk : topK E [] = closedK := by
+    simp only [topK, closedK, lookupId]
+  rw [hk]; exact this
 
 end Tau.C01
 
